@@ -164,6 +164,7 @@ type regWorld struct {
 	val     int
 	out     []regOut // written during the current step
 	panicky string
+	td      *tdExt // composed teardown world (TestTeardown) or nil
 }
 
 func regDev(p int) string { return fmt.Sprintf("dev%d", p) }
@@ -207,6 +208,10 @@ func regDiscovery(dev string, state *model.NetworkManagementStateChangeType, ent
 // newRegWorld builds a real DeviceLocal with the local tree of the model and
 // npeers connected peers that all announce the same tree.
 func newRegWorld(npeers int, ev *regEvents, base int) *regWorld {
+	return newRegWorldTd(npeers, ev, base, false)
+}
+
+func newRegWorldTd(npeers int, ev *regEvents, base int, td bool) *regWorld {
 	w := &regWorld{npeers: npeers, rds: map[int]api.DeviceRemoteInterface{}, log: &regLog{}, ctr: map[int]uint64{}, alive: map[int]bool{},
 		gone: map[int]map[string]bool{}, ev: ev, base: base}
 	l := spine.NewDeviceLocal("b", "m", "s", "c", "HEMS", model.DeviceTypeTypeEnergyManagementSystem, model.NetworkManagementFeatureSetTypeSmart)
@@ -224,6 +229,9 @@ func newRegWorld(npeers int, ev *regEvents, base int) *regWorld {
 	f = e2.GetOrAddFeature(model.FeatureTypeTypeDeviceDiagnosis, model.RoleTypeServer)
 	f.AddFunctionType(model.FunctionTypeDeviceDiagnosisStateData, true, false)
 	w.l = l
+	if td {
+		w.td = newTdExt(w)
+	}
 	for p := 1; p <= npeers; p++ {
 		l.SetupRemoteDevice(regSki(p), &regW{p, w.log})
 		w.rds[p] = l.RemoteDeviceForSki(regSki(p))
@@ -474,17 +482,29 @@ type regStats struct{ subOk, subAll, bindOk, bindAll, delOk, delAll, fanNon, fan
 // runRegHistory executes ops on a fresh world. d == nil: monitor only (probe phase).
 // ops[0] = "peers N".
 func runRegHistory(r *h.Report, d *h.Driver, ev *regEvents, base int, ops []string, st *regStats) {
+	runRegHistoryTd(r, d, ev, base, ops, st, false)
+}
+
+// returns true when the history was abandoned because a real timer fired outside its step (composed world only)
+func runRegHistoryTd(r *h.Report, d *h.Driver, ev *regEvents, base int, ops []string, st *regStats, td bool) bool {
 	if len(ops) == 0 {
-		return
+		return false
 	}
 	np := 2
 	if f := strings.Fields(ops[0]); len(f) == 2 && f[0] == "peers" {
 		np, _ = strconv.Atoi(f[1])
 	}
-	w := newRegWorld(np, ev, base)
+	w := newRegWorldTd(np, ev, base, td)
 	defer w.close()
+	if w.td != nil {
+		defer w.td.close()
+	}
 	if d != nil {
-		d.Ask("reset")
+		if td {
+			d.Ask(fmt.Sprintf("peers %d", np))
+		} else {
+			d.Ask("reset")
+		}
 	}
 	done := []string{ops[0]}
 	for _, op := range ops[1:] {
@@ -495,7 +515,7 @@ func runRegHistory(r *h.Report, d *h.Driver, ev *regEvents, base int, ops []stri
 		atoi := func(i int) int { n, _ := strconv.Atoi(f[i]); return n }
 		requester := 0
 		switch f[0] {
-		case "sub", "unsub", "bind", "unbind", "write", "drop", "dropent":
+		case "sub", "unsub", "bind", "unbind", "write", "drop", "dropent", "wr", "read":
 			requester = atoi(1)
 		}
 		if requester != 0 && (requester > np || !w.alive[requester]) {
@@ -504,6 +524,9 @@ func runRegHistory(r *h.Report, d *h.Driver, ev *regEvents, base int, ops []stri
 		preS, preB := w.snapshot()
 		w.out = nil
 		w.panicky = ""
+		if w.td != nil {
+			w.td.before()
+		}
 		var impl, kind string
 		done = append(done, op)
 		switch f[0] {
@@ -681,6 +704,9 @@ func runRegHistory(r *h.Report, d *h.Driver, ev *regEvents, base int, ops []stri
 				}
 			}
 			regJudgeInvariants(r, done, postS, postB)
+			if w.td != nil {
+				w.td.afterTeardown(r, done, op, p, ent)
+			}
 			st.faults++
 			kind = f[0]
 		case "subs", "binds":
@@ -823,27 +849,39 @@ func runRegHistory(r *h.Report, d *h.Driver, ev *regEvents, base int, ops []stri
 				kind += ":fanout"
 			}
 		default:
-			panic("bad op " + op)
+			if w.td == nil {
+				panic("bad op " + op)
+			}
+			impl, kind = w.td.step(r, done, f, preS)
+			postS, postB := w.snapshot()
+			if len(regDiff(preS, postS))+len(regDiff(postS, preS))+len(regDiff(preB, postB))+len(regDiff(postB, preB)) > 0 {
+				r.SpecFail("C10/registry-changed-by-"+f[0], done, fmt.Sprintf("%s changed the registries: %s | %s -> %s | %s", op, regShow(preS), regShow(preB), regShow(postS), regShow(postB)))
+			}
 		}
 		// SPEC (C10): no further datagram is written to a removed connection
 		for _, o := range w.out {
-			if !w.alive[o.peer] && f[0] != "drop" {
+			if !w.alive[o.peer] && f[0] != "drop" && f[0] != "fire" {
 				r.SpecFail("C10/write-to-removed-connection", done, fmt.Sprintf("during %s a datagram was written to the removed connection of peer %d", op, o.peer))
 			}
 		}
 		if w.panicky != "" {
 			impl = "panic " + w.panicky
 		}
+		if w.td != nil && w.td.early {
+			r.Eval("abandoned:timer-fired-early", "")
+			return true
+		}
 		r.Eval(kind, "")
 		if d != nil {
 			want := d.Ask(op)
 			if impl != want {
 				r.Mismatch(done, impl, want, "registry op "+op)
-				return
+				return false
 			}
 		}
 	}
 	r.Traces++
+	return false
 }
 
 // ---------------------------------------------------------------- generation
